@@ -167,17 +167,16 @@ def certify(rows):
 
 
 def regular_degree(rows):
-    """d if every live vertex has exactly d live successors (closed d-regular), else None."""
+    """d >= 1 if every live vertex (= vertex with an out-arc) has exactly d live successors, else None. Arcs into
+    vertices without out-arcs (dangling arcs) do not count: the property speaks of *live* successors."""
     live = set(v for v in range(len(rows)) if any(w >= 0 for w in rows[v]))
     if not live:
         return None
     d = None
     for v in live:
-        succ = [w for w in rows[v] if w >= 0]
-        if any(w not in live for w in succ):
-            return None
+        n = sum(1 for w in rows[v] if w >= 0 and w in live)
         if d is None:
-            d = len(succ)
-        elif d != len(succ):
+            d = n
+        elif d != n:
             return None
-    return d
+    return d if d and d >= 1 else None
